@@ -6,6 +6,7 @@
 From Coq Require Import List NArith Bool Lia.
 From Verif Require Import Common.Util Sync.Model Sync.Proofs Sync.ProofsDownload Sync.ProofsConverge
   Sync.ModelRPC Sync.ProofsRPC.
+From Verif Require Compose.SyncOrder.
 Import ListNotations.
 Open Scope N_scope.
 
@@ -257,6 +258,68 @@ Example serve_example :
   fetch_accept 9 [(Some 8, true)] = FRejected /\ fetch_accept 9 [(Some 9, true)] = FFeed 9.
 Proof. vm_compute. repeat split; reflexivity. Qed.
 
+(* ------------------------------------------------------------------ composition *)
+
+(* C19 <-> C04 (Compose/SyncOrder.v).  sync_converges instantiated with the REAL fork choice of Bft/Model.v:
+   Blk := N (block ids read in a universe tree U that holds every block either side knows, so ids identify blocks
+   trivially), better i j := ProofsNode.beats c U (block i) (block j) — quality from the definitions, then total score,
+   then smaller id, i.e. bft.Select (select_is_sbetter) — and the node := the Sync view (ids of the repository, best
+   id) of a Bft node.  The hypotheses "better is asymmetric", "better is negatively transitive", "best is maximal in the
+   store" and "ids identify blocks" of sync_converges are DISCHARGED: the first two hold for the order outright
+   (bft_order_strict_weak), the third follows from C04's node invariant `inv c nd` (best_is_max), which holds along
+   every import history (C04 import_history_invariants).  The remaining premises are those of sync_converges. *)
+Theorem bft_order_strict_weak (c : Bft.Model.cfg) (U : Bft.Tree.repo) :
+  (forall x y, Compose.SyncOrder.sbetter c U x y = true -> Compose.SyncOrder.sbetter c U y x = false) /\
+  (forall x y z, Compose.SyncOrder.sbetter c U x z = true ->
+                 Compose.SyncOrder.sbetter c U x y = true \/ Compose.SyncOrder.sbetter c U y z = true) /\
+  (forall x y : N, Compose.SyncOrder.sbid x = Compose.SyncOrder.sbid y -> x = y).
+Proof.
+  exact (conj (Compose.SyncOrder.sbetter_asym c U) (conj (Compose.SyncOrder.sbetter_cotrans c U) Compose.SyncOrder.sbid_inj)).
+Qed.
+
+Theorem bft_node_best_max (c : Bft.Model.cfg) (U : Bft.Tree.repo) (nd : Bft.Model.node) :
+  Bft.ProofsNode.inv c nd -> Bft.Tree.wf_repo U -> (forall x, In x (Bft.Model.n_repo nd) -> In x U) ->
+  best_max N (Compose.SyncOrder.sbetter c U) (Compose.SyncOrder.sync_node nd).
+Proof. exact (Compose.SyncOrder.inv_gives_best_max c U nd). Qed.
+
+Theorem sync_converges_bft_order (c : Bft.Model.cfg) (U : Bft.Tree.repo) (nd : Bft.Model.node)
+        (num : N -> N) (valid : N -> bool) (lc rc : list N) (cut : N -> nat) (h : N) fuel fuel2 :
+  Bft.ProofsNode.inv c nd -> Bft.Tree.wf_repo U -> (forall x, In x (Bft.Model.n_repo nd) -> In x U) ->
+  chain_linked N Compose.SyncOrder.sbid (Compose.SyncOrder.sparent U) lc ->
+  chain_linked N Compose.SyncOrder.sbid (Compose.SyncOrder.sparent U) rc ->
+  (forall b, In b lc -> In b (store N (Compose.SyncOrder.sync_node nd))) ->
+  same_at N Compose.SyncOrder.sbid lc rc 0 = true ->
+  N.of_nat (length lc - 1) < 2147483648 ->
+  (forall n b, nth_error rc n = Some b -> num b = N.of_nat n) ->
+  N.of_nat (length rc) < 4294967296 ->
+  (forall b, In b rc -> valid b = true) ->
+  (forall n, (1 <= cut n <= max_batch)%nat) ->
+  nth_error rc (length rc - 1) = Some h ->
+  Compose.SyncOrder.sbetter c U h (best N (Compose.SyncOrder.sync_node nd)) = true ->
+  (forall b, In b rc -> b <> h -> Compose.SyncOrder.sbetter c U h b = true) ->
+  (ancestor_fuel (N.of_nat (length lc - 1)) <= fuel)%nat -> (length rc < fuel2)%nat ->
+  exists a l st',
+    find_common_ancestor (fun n => Some (same_at N Compose.SyncOrder.sbid lc rc n)) (N.of_nat (length lc - 1)) fuel = Anc a /\
+    is_last (same_at N Compose.SyncOrder.sbid lc rc) (N.of_nat (length lc - 1)) a /\
+    download_stream N N (fun b => Some (num b)) (fun b => Some b) (honest_peer N rc cut) (a + 1) fuel2 = (l, DlDone) /\
+    import_all N Compose.SyncOrder.sbid (Compose.SyncOrder.sparent U) valid (Compose.SyncOrder.sbetter c U)
+               (Compose.SyncOrder.sync_node nd) l = (st', true) /\
+    best N st' = h.
+Proof. exact (Compose.SyncOrder.sync_converges_bft_order c U nd num valid lc rc cut h fuel fuel2). Qed.
+
+(* non-vacuity: a fork where the local branch (best l5: quality 1, total score 200) has the higher total score and the
+   peer's branch (head m7: quality 2, total score 7) the higher quality; all hypotheses of sync_converges_bft_order are
+   discharged on it (Compose.SyncOrder.sync_converges_bft_order_example) and the peer's head becomes best *)
+Example sync_converges_bft_order_example :
+  exists a l st',
+    find_common_ancestor (fun n => Some (same_at N Compose.SyncOrder.sbid Compose.SyncOrder.ex_lc Compose.SyncOrder.ex_rc n)) 5 20 = Anc a /\
+    a = 3 /\ l = map Bft.Tree.b_id (map Compose.SyncOrder.ex_m [4; 5; 6; 7]) /\
+    import_all N Compose.SyncOrder.sbid (Compose.SyncOrder.sparent Compose.SyncOrder.ex_U) (fun _ => true)
+               (Compose.SyncOrder.sbetter Compose.SyncOrder.ex_cfg Compose.SyncOrder.ex_U)
+               (Compose.SyncOrder.sync_node Compose.SyncOrder.ex_nd) l = (st', true) /\
+    best N st' = Bft.Tree.b_id (Compose.SyncOrder.ex_m 7).
+Proof. exact Compose.SyncOrder.sync_converges_bft_order_example. Qed.
+
 Print Assumptions ancestor_example.
 Print Assumptions ancestor_hyps_example.
 Print Assumptions ancestor_wrap_example.
@@ -280,3 +343,7 @@ Print Assumptions stream_in_sequence.
 Print Assumptions download_complete.
 Print Assumptions sync_converges.
 Print Assumptions sync_converges_example.
+Print Assumptions bft_order_strict_weak.
+Print Assumptions bft_node_best_max.
+Print Assumptions sync_converges_bft_order.
+Print Assumptions sync_converges_bft_order_example.
